@@ -1,6 +1,13 @@
 //! C18 series 2: the scripted peer acts as the CLIENT (Auto::none(), everything by hand) against the real
 //! listener, so that it can post to / discharge never-declared and finished ids and post after discharge.
 //! The peer's own behaviour stays protocol-valid (every frame of a multi-frame post carries the state).
+//!
+//! Variant S2-relink (`scenario_relink`, alphabet `RELINK_ALPHABET`): one transaction slot; the client also CLOSES
+//! data links (closing detach, answered by the listener, whose application sees the detach on its next `recv`) and
+//! attaches NEW links (new name, new target address) that re-use the freed handle numbers - each accepted by the
+//! listener application as a further `Receiver` with a log of its own.  A post belongs to the link it was sent on:
+//! it must never surface at the application of the link that later took over the handle number.  Posts and
+//! discharges are only enabled while the transaction is live (unknown / finished ids are the business of plain S2).
 use super::common::*;
 use super::Obs;
 use fe2o3_amqp_types::definitions::{ErrorCondition, Handle, ReceiverSettleMode, Role, SenderSettleMode};
@@ -21,6 +28,9 @@ struct Cli {
     next_handle: u32,
     ctl_handle: Option<u32>,
     ctl_count: usize,
+    /// model link (= attachment with its own receiving application) that currently holds the handle number of
+    /// data link k (index k-1); None after the client closed it
+    holder: [Option<u8>; 2],
 }
 
 fn attach(name: &str, handle: u32, target: TargetArchetype) -> Attach {
@@ -140,6 +150,18 @@ pub fn wshort(w: &WFrame) -> String {
     }
 }
 
+fn link_name(app: u8) -> String {
+    format!("link-{app}")
+}
+
+/// the handle the listener chose for the link of that name (latest attach of that name)
+fn lib_handle_of(tr: &[WFrame], name: &str) -> Option<u32> {
+    tr.iter().rev().find_map(|w| match (&w.dir, &w.body) {
+        (Dirn::FromLib, Body::Perf(Performative::Attach(a))) if a.name == name => Some(a.handle.0),
+        _ => None,
+    })
+}
+
 fn lib_ended(tr: &[WFrame]) -> bool {
     tr.iter().any(|w| w.dir == Dirn::FromLib && matches!(&w.body, Body::Perf(Performative::End(_)) | Body::Perf(Performative::Close(_))))
 }
@@ -152,7 +174,21 @@ pub async fn scenario(events: Vec<Ev>, presettled: bool) -> Obs {
 /// `Obs::session_probes` then holds, per event, the next-incoming-id the listener reported and the number of
 /// transfer frames the client had sent by then (used by C07: transactional posts are transfer frames too).
 pub async fn scenario_probed(events: Vec<Ev>, presettled: bool, probe: bool) -> Obs {
-    let series = if presettled { Series::S2Settled } else { Series::S2 };
+    scenario_full(events, presettled, probe, false).await
+}
+
+/// S2-relink: see the module comment
+pub async fn scenario_relink(events: Vec<Ev>, presettled: bool) -> Obs {
+    scenario_full(events, presettled, false, true).await
+}
+
+async fn scenario_full(events: Vec<Ev>, presettled: bool, probe: bool, relink: bool) -> Obs {
+    let series = match (relink, presettled) {
+        (false, false) => Series::S2,
+        (false, true) => Series::S2Settled,
+        (true, false) => Series::S2Relink,
+        (true, true) => Series::S2RelinkSettled,
+    };
     let mut obs = Obs::default();
     let (pipe, a, _b) = Pipe::new();
     let sh: Sh = Default::default();
@@ -200,7 +236,7 @@ pub async fn scenario_probed(events: Vec<Ev>, presettled: bool, probe: bool) -> 
     peer.send(0, Performative::Attach(attach("link-2", 1, TargetArchetype::Target(Target::builder().address("q2").build()))));
     peer.send(0, Performative::Attach(attach("ctl-1", 2, TargetArchetype::Coordinator(Coordinator::default()))));
     settle(&mut peer, 3).await;
-    let mut cli = Cli { sent_on: Default::default(), next_tid: 0, next_tag: 0, next_handle: 3, ctl_handle: Some(2), ctl_count: 1 };
+    let mut cli = Cli { sent_on: Default::default(), next_tid: 0, next_tag: 0, next_handle: 3, ctl_handle: Some(2), ctl_count: 1, holder: [Some(1), Some(2)] };
     // start state reached?
     let lib_attaches = peer.trace.iter().filter(|w| w.dir == Dirn::FromLib && matches!(&w.body, Body::Perf(Performative::Attach(_)))).count();
     let credited = peer
@@ -226,6 +262,10 @@ pub async fn scenario_probed(events: Vec<Ev>, presettled: bool, probe: bool) -> 
     }
     let mut model = Model::default();
     let mut session_alive = true;
+    // S2-relink: per model link the index (k-1) of the handle number it was attached on; per handle number the
+    // latest link on it
+    let mut handle_ix: Vec<usize> = vec![0, 1];
+    let mut last_holder: [u8; 2] = [1, 2];
     let never_id = |t: u8| format!("never-declared-{t}").into_bytes();
     obs.state_keys.push(h64(&(model.key(), true, true)));
 
@@ -236,8 +276,15 @@ pub async fn scenario_probed(events: Vec<Ev>, presettled: bool, probe: bool) -> 
         let name = ev_name(series, *ev);
         let enabled = match ev {
             Ev::X1 | Ev::X2 => cli.ctl_handle.is_some(),
+            // S2-relink: one transaction at a time, always in slot 1
+            Ev::Declare if relink => !model.live(1),
             Ev::Declare => model.free_slot().is_some(),
             Ev::X3 => false,
+            Ev::CloseLink(k) => relink && cli.holder[*k as usize - 1].is_some(),
+            Ev::AttachReuse(k) => relink && cli.holder[*k as usize - 1].is_none(),
+            // a conforming client does not send on a handle it has detached
+            Ev::Post { link, .. } if cli.holder[*link as usize - 1].is_none() => false,
+            Ev::Post { txn, .. } | Ev::Commit(txn) | Ev::Rollback(txn) if relink && *txn != 0 => model.live(*txn),
             Ev::Post { link, .. } if probe => {
                 let h = *link as u32 - 1;
                 cli.sent_on.get(&h).copied().unwrap_or(0) < limit_on.get(&h).copied().unwrap_or(0)
@@ -287,6 +334,8 @@ pub async fn scenario_probed(events: Vec<Ev>, presettled: bool, probe: bool) -> 
                 }
             }
             Ev::Post { link, txn } => {
+                // the attachment (and with it the receiving application) that holds this handle number now
+                let app = cli.holder[link as usize - 1].unwrap();
                 let label = label_for(link, i);
                 let payload = msg_bytes(body_for(link, i));
                 let (state, status) = if txn == 0 {
@@ -310,11 +359,11 @@ pub async fn scenario_probed(events: Vec<Ev>, presettled: bool, probe: bool) -> 
                         settle(&mut peer, 3).await;
                         let refused = refusal(&peer.trace[mark..], Some(did));
                         match status {
-                            "none" => model.post(link, 0, label),
+                            "none" => model.post(app, 0, label),
                             "live" => {
                                 obs.txn_posts += 1;
                                 match refused {
-                                    None => model.post(link, txn, label),
+                                    None => model.post(app, txn, label),
                                     Some((how, c)) => fail = Some(("post-under-live-txn-refused".into(), format!("{name} (transaction declared and not discharged) was refused by {how} with {c:?}"))),
                                 }
                             }
@@ -357,6 +406,13 @@ pub async fn scenario_probed(events: Vec<Ev>, presettled: bool, probe: bool) -> 
                                         if !model.pending[idx].is_empty() {
                                             obs.commits_with_posts += 1;
                                         }
+                                        if model.pending[idx].iter().any(|(l, _)| model.closed[*l as usize - 1]) {
+                                            obs.commits_with_post_on_closed_link += 1;
+                                            // the handle number of such a post is held by a NEW link at the commit
+                                            if model.pending[idx].iter().any(|(l, _)| model.closed[*l as usize - 1] && cli.holder[handle_ix[*l as usize - 1]].is_some()) {
+                                                obs.commits_with_post_on_reused_handle += 1;
+                                            }
+                                        }
                                         model.commit(t);
                                     } else {
                                         model.rollback(t);
@@ -385,6 +441,40 @@ pub async fn scenario_probed(events: Vec<Ev>, presettled: bool, probe: bool) -> 
                 model.abort_all_live();
             }
             Ev::X3 => {}
+            Ev::CloseLink(k) => {
+                let app = cli.holder[k as usize - 1].take().unwrap();
+                let h = k as u32 - 1;
+                peer.send(0, Performative::Detach(Detach { handle: Handle(h), closed: true, error: None }));
+                settle(&mut peer, 3).await;
+                model.close_link(app);
+                obs.link_closes += 1;
+                // the handle number is free for re-use once the listener has answered the detach
+                let lib_h = lib_handle_of(&peer.trace, &link_name(app));
+                let answered = peer.trace[mark..].iter().any(|w| w.dir == Dirn::FromLib && matches!(&w.body, Body::Perf(Performative::Detach(d)) if Some(d.handle.0) == lib_h));
+                if !answered && !lib_ended(&peer.trace[mark..]) {
+                    obs.machinery = Some(format!("{}: the listener did not answer the closing detach of {} (its handle {lib_h:?}): {:?} notes {:?}", series.tag(), link_name(app), vlib::peer::trace_to_strings(&peer.trace[mark..]), sh.lock().unwrap().notes));
+                }
+            }
+            Ev::AttachReuse(k) => {
+                let h = k as u32 - 1;
+                let app = model.add_link();
+                peer.send(0, Performative::Attach(attach(&link_name(app), h, TargetArchetype::Target(Target::builder().address(format!("q{app}")).build()))));
+                settle(&mut peer, 3).await;
+                let attached = peer.trace[mark..].iter().any(|w| w.dir == Dirn::FromLib && matches!(&w.body, Body::Perf(Performative::Attach(a)) if a.name == link_name(app) && a.target.is_some()));
+                let credited = peer.trace[mark..].iter().any(|w| w.dir == Dirn::FromLib && matches!(&w.body, Body::Perf(Performative::Flow(f)) if f.handle.is_some() && f.link_credit.unwrap_or(0) > 0));
+                if !(attached && credited) && !lib_ended(&peer.trace[mark..]) {
+                    obs.machinery = Some(format!("{}: attaching {} on the re-used handle {h} was not answered with attach + credit: {:?} notes {:?}", series.tag(), link_name(app), vlib::peer::trace_to_strings(&peer.trace[mark..]), sh.lock().unwrap().notes));
+                }
+                // which closed link held this handle number before
+                let prev = last_holder[k as usize - 1];
+                handle_ix.push(k as usize - 1);
+                last_holder[k as usize - 1] = app;
+                cli.holder[k as usize - 1] = Some(app);
+                // the new attach announces initial-delivery-count 0
+                cli.sent_on.insert(h, 0);
+                obs.handle_reuses += 1;
+                note = format!("{} attached on handle {h} (held by {} before)", link_name(app), link_name(prev));
+            }
             Ev::SessionEnd => {
                 peer.send(0, Performative::End(End { error: None }));
                 settle(&mut peer, 3).await;
@@ -440,7 +530,7 @@ pub async fn scenario_probed(events: Vec<Ev>, presettled: bool, probe: bool) -> 
         if fail.is_none() {
             fail = model.judge_log(&log);
         }
-        obs.state_keys.push(h64(&(model.key(), cli.ctl_handle.is_some(), session_alive, log.len())));
+        obs.state_keys.push(h64(&(model.key(), cli.ctl_handle.is_some(), session_alive, log.len(), cli.holder)));
         if let Some((sig, detail)) = fail {
             obs.fails.push((sig, format!("after event {} ({name}): {detail}", i + 1)));
             break;
@@ -448,6 +538,14 @@ pub async fn scenario_probed(events: Vec<Ev>, presettled: bool, probe: bool) -> 
     }
     for n in sh.lock().unwrap().notes.iter() {
         obs.trace.push(format!("   note: {n}"));
+    }
+    // not a verdict, a documented behaviour: the commit was accepted, a post of the transaction had lost its link
+    // before, and nobody ever saw it
+    if obs.fails.is_empty() && !model.orphaned.is_empty() {
+        let log = sh.lock().unwrap().log.clone();
+        if model.orphaned.iter().all(|lab| !log.iter().any(|(_, s)| s == lab)) {
+            obs.commit_accepted_post_discarded_link_gone = 1;
+        }
     }
     obs
 }
